@@ -52,7 +52,12 @@ where
                             if delay_us > 0 {
                                 std::thread::sleep(Duration::from_micros(delay_us));
                             }
-                            let mut b = serde_json::to_vec(&r).unwrap();
+                            // {"__raw_text": "..."}: bytes to put on the wire as they are (a reply in
+                            // a spelling of the script's choosing)
+                            let mut b = match r.get("__raw_text").and_then(|t| t.as_str()) {
+                                Some(t) => t.as_bytes().to_vec(),
+                                None => serde_json::to_vec(&r).unwrap(),
+                            };
                             b.push(0);
                             l2.lock().unwrap().push(SrvEv::Reply { t: tick(), value: r });
                             if c.write_all(&b).is_err() {
